@@ -7,6 +7,7 @@ From Coq Require Import Arith NArith List Lia Bool.
 From RTA.Model Require Import Base Arrival Wcet Demand Analyses Eval WellFormed.
 From RTA.Spec Require Import Sched Events TaskModel Policies.
 From RTA.Proofs Require Import FpSound.
+From RTA.Proofs Require Import GeneralCosts.
 
 Definition job_of (jobs : list job) (k i : nat) : Prop := j_task (nth k jobs (mkJob 0 0 0)) = i.
 Definition lower_priority_job (jobs : list job) (prio : nat -> nat) (k i : nat) : Prop :=
@@ -59,3 +60,17 @@ Proof.
   intros tasks i prio jobs sched pp dbg B limit R (H1 & H2 & H3 & H4 & H5 & H6 & H7 & H8 & H9) Hs He.
   exact (fp_floating_nonpreemptive_sound tasks i prio H1 H2 H3 jobs sched pp H4 H5 H6 H7 H8 H9 dbg B limit R Hs He).
 Qed.
+
+(* ---- GENERAL JOB-COST MODELS (Proofs/GeneralCosts.v).  gtask = arrival bound * cost model (Scalar | Multiframe | cost curve |
+        extrapolating cost curve); respects_cost_models: every job costs at least 1 and, in some release-ordered enumeration of a
+        task's jobs, every block of m consecutive jobs costs at most cost_of_jobs(m) -- what JobCostModel::cost_of_jobs promises
+        (for trace-derived curves C14 proves it; for Multiframe it is an obligation on the frame vector, see
+        multiframe_first_frames_refuted).  The scalar theorems above are corollaries (scalar_respects_cost_models). ---- *)
+(* statements: Proofs/GeneralCosts.v (same shape as the scalar theorems with gtask / grb_of / respects_cost_models); the analysed task
+   may have any cost model in the fully preemptive and floating non-preemptive analyses, a scalar WCET (as the entry points demand) in the
+   fully non-preemptive and limited-preemptive ones; interfering tasks are general everywhere *)
+Definition C01_fully_preemptive_sound_general_costs := fp_fp_sound_gen.
+Definition C01_floating_nonpreemptive_sound_general_costs := fp_fnp_sound_gen.
+Definition C01_fully_nonpreemptive_sound_general_interferers := fp_np_sound_gen.
+Definition C01_limited_preemptive_sound_general_interferers := fp_lp_sound_gen.
+Definition C01_general_costs_nonvacuous := gx_fp_completes.
